@@ -11,7 +11,7 @@ Init == l = 1
 Next == l <= N /\ l' = l + 1
 Spec == Init /\ [][Next]_l
 Cur == Recs[l]
-Has == l <= N
+Has == l <= N /\ Recs[l].ev = "Bind"
 
 SetOf(s) == {s[i] : i \in 1..Len(s)}
 TreeOf(t) == [i \in 1..Len(t) |-> [name |-> t[i].name, fans |-> SetOf(t[i].fans), temps |-> SetOf(t[i].temps)]]
@@ -33,6 +33,35 @@ C17_BindsNamedDevice == Has /\ ~Expected.err =>
 \* no matching device: start-up fails with an error naming the entry, it never binds another device
 C17_FailsCleanly == Has /\ Expected.err => Cur.res.err /\ ~Cur.res.panic /\ Cur.res.named
 C17_NoCrash == Has => ~Cur.res.panic
+
+\* ---- `fan2go detect` as an observer (drift only): the listing the user takes `index:` / `rpmChannel:` from shows, under
+\* every index, the very device that BindFan / BindSensor give for that index - and every device of the tree exactly once
+HasDetect == l <= N /\ Recs[l].ev = "Detect"
+G17_DetectShowsBinding == HasDetect =>
+  LET T == TreeOf(Cur.tree)
+      D == Cur.listing
+      Listed == {D[i].name : i \in 1..Len(D)}
+  IN  /\ Cur.exit = 0
+      /\ Listed = {T[i].name : i \in {j \in 1..Len(T) : T[j].fans # {} \/ T[j].temps # {}}}
+      /\ Len(D) = Cardinality(Listed)
+      /\ \A i \in 1..Len(D) :
+           LET chip == T[CHOOSE j \in 1..Len(T) : T[j].name = D[i].name]
+               num == NumOf(Cur.tree, D[i].name)
+           IN  /\ Len(D[i].fans) = Cardinality(chip.fans)
+               /\ {D[i].fans[k][1] : k \in 1..Len(D[i].fans)} = 1..Cardinality(chip.fans)
+               /\ \A k \in 1..Len(D[i].fans) :
+                    LET row == D[i].fans[k]
+                        b == BindFan(T, [platform |-> D[i].name, index |-> row[1], rpmChannel |-> 0, pwmChannel |-> 0])
+                    IN  /\ ~b.err /\ b.rpm = row[2]                     \* the channel shown is the channel bound
+                        /\ row[3] = 1000 * num + 10 * row[2] + 1         \* the RPM shown is that channel's, on that chip
+                        /\ row[4] = 100 + 10 * num + b.pwm               \* the PWM shown is the one that would be driven
+               /\ Len(D[i].temps) = Cardinality(chip.temps)
+               /\ {D[i].temps[k][1] : k \in 1..Len(D[i].temps)} = 1..Cardinality(chip.temps)
+               /\ \A k \in 1..Len(D[i].temps) :
+                    LET row == D[i].temps[k]
+                        b == BindSensor(T, [platform |-> D[i].name, index |-> row[1]])
+                    IN  /\ ~b.err /\ b.temp = row[2]
+                        /\ row[3] = 1000 * (10 * num + row[2])
 
 Report == l = N + 1 => PrintT(<<"TRACE-DONE", N, "DRIFT", <<>>>>)
 TraceAccepted == TLCGet("stats").diameter = N + 1
